@@ -199,16 +199,20 @@ class UnwindSwitch:
                                                        "print(quiet_fiber().call());", "print(\"end of program\");"]
         return HELPERS + fiber + driver
 
-    def programs(self, n_random):
-        """every (entry, inside) pair once per run, contexts cycled from a random offset; + n_random random trees"""
+    def programs(self, n_random, half=False):
+        """every (entry, inside) pair once per run (half=True: a checkerboard half of the pairs chosen by the seed - every
+        entry still meets 8 insides, every inside 6 entries), contexts cycled from a random offset; + n_random random trees"""
         r = self.rng
         out = []
         off = r.randrange(len(CONTEXTS))
+        par = r.randrange(2)
         i = 0
-        for e in ENTRIES:
-            for s in INSIDE:
+        for ei, e in enumerate(ENTRIES):
+            for si, s in enumerate(INSIDE):
                 c = CONTEXTS[(i + off + i // len(CONTEXTS)) % len(CONTEXTS)]
                 i += 1
+                if half and (ei + si) % 2 != par:
+                    continue
                 src = "\n".join(self.program(e, s, c)) + "\n"
                 out.append({"name": "dir:unwind_switch:%s/%s/%s" % (e, s, c), "line": "run stats=1 " + hx(src), "src": src,
                             "kinds": ["unwind_switch"]})
